@@ -4,7 +4,7 @@ from vf.pyvc.engine import Contract, Loop
 CIRC = "lightworks/sdk/circuit/circuit.py"
 # class schema used for symbolic Circuit objects
 CIRCUIT = ("obj:Circuit{__n_modes:int;__internal_modes:list[int];__in_heralds:dict[int,int];"
-           "__out_heralds:dict[int,int];__external_in_heralds:dict[int,int];__external_out_heralds:dict[int,int]}")
+           "__out_heralds:dict[int,int];__external_in_heralds:dict[int,int];__external_out_heralds:dict[int,int];__circuit_spec:glist}")
 
 WF_INTERNAL = ("forall((t,u), implies(0 <= t and t < u and u < len(self.__internal_modes), "
                "at(self.__internal_modes,t) != at(self.__internal_modes,u)))")
@@ -41,9 +41,296 @@ CONTRACTS = [
             "not_internal": "result not in self.__internal_modes",
             "rank": "result == old(mode) + k and forall(t, implies(0 <= t and t < len(self.__internal_modes), "
                     "(at(_it,t) < result) == (t < k)))",
+            # the clauses callers may rely on (no ghost state)
+            "ge": "result >= old(mode)",
+            "le": "result <= old(mode) + len(self.__internal_modes)",
+            "same_if_no_ancilla": "implies(len(self.__internal_modes) == 0, result == old(mode))",
         },
+        modular=["not_internal", "ge", "le", "same_if_no_ancilla"],
+        pure=True,
+        reads=["self.__internal_modes", "mode"],
+        result_type="int",
         raises={},
         replay=replay_map_mode,
         props=["C02", "C01", "C08"],
     ),
 ]
+
+
+# ---------------------------------------------------------------------------------------------- validators (C01 / C08)
+UTIL = "lightworks/sdk/circuit/circuit_utils.py"
+PARAM = "obj:Parameter{__value:real;__min_bound:none;__max_bound:none;label:none}"
+
+
+def replay_mir(inp):
+    import lightworks as lw
+    c = lw.Circuit(max(inp["self"]["_Circuit__n_modes"], 0))
+    m = inp["mode"]
+    if isinstance(m, dict):
+        m = m.get("float", m["frac"][0] / m["frac"][1] if "frac" in m else None)
+    try:
+        c._mode_in_range(m)
+        raised = None
+    except Exception as e:  # noqa: BLE001
+        raised = type(e).__name__
+    n = c.n_modes
+    if isinstance(m, bool):
+        want = "TypeError"
+    elif isinstance(m, float) and int(m) != m:
+        want = "TypeError"
+    elif not 0 <= m < n:
+        want = "ModeRangeError"
+    else:
+        want = None
+    if raised != want:
+        return f"Circuit({n})._mode_in_range({m!r}) -> {raised}, expected {want}"
+    return None
+
+
+CONTRACTS += [
+    Contract(
+        target=f"{CIRC}:Circuit._mode_in_range",
+        types={"self": CIRCUIT, "mode": ["int", "bool", "real", PARAM]},
+        requires=[],
+        modifies=[],
+        ensures={"in_range": "0 <= mode and mode < self.__n_modes", "true": "result"},
+        result_type="bool",
+        raises={"TypeError": "isinstance(mode, Parameter) or isinstance(mode, bool) or (isinstance(mode, float) and int(mode) != mode)",
+                "ModeRangeError": "not isinstance(mode, Parameter) and not isinstance(mode, bool) and not (isinstance(mode, float) and int(mode) != mode) "
+                                  "and not (0 <= mode and mode < self.__n_modes)"},
+        exc_frame=True,
+        replay=replay_mir,
+        props=["C01", "C08"],
+    ),
+    Contract(
+        target=f"{UTIL}:check_loss",
+        types={"loss": ["real", "int", "bool", "'text'", PARAM]},
+        requires=[],
+        modifies=[],
+        ensures={"valid": "0 <= lossvalue(loss) and lossvalue(loss) <= 1"},
+        raises={"TypeError": "isinstance(loss, bool) or isinstance(loss, str)",
+                "ValueError": "not isinstance(loss, bool) and not isinstance(loss, str) and not (0 <= lossvalue(loss) and lossvalue(loss) <= 1)"},
+        defs={"lossvalue": lambda ex, v: (ex.heap[v.id].get("_Parameter__value") if hasattr(v, "id") else v)},
+        exc_frame=True,
+        props=["C01", "C08"],
+    ),
+]
+
+
+# ---------------------------------------------------------------------------------------------- builder methods (C01 / C08)
+MODE_T = "int"      # non-integer / boolean / negative modes: bounded check vf/tasks/t_frames.py (the modular result type of _map_mode is int)
+LOSS_T = ["real", "'text'", PARAM]
+BADMODE = "(isinstance({m}, bool) or (isinstance({m}, float) and int({m}) != {m}))"
+LOSSVAL = {"lossvalue": lambda ex, v: (ex.heap[v.id].get("_Parameter__value") if hasattr(v, "id") else v)}
+
+
+def _circ(inp):
+    import lightworks as lw
+    s = inp["self"]
+    n = s["_Circuit__n_modes"]
+    internal = sorted(set(x for x in s["_Circuit__internal_modes"] if 0 <= x < n))
+    if n < 1 or n > 12:
+        return None
+    c = lw.Circuit(n)
+    c._Circuit__internal_modes = list(internal)
+    for m in internal:
+        c._Circuit__in_heralds[m] = 0
+        c._Circuit__out_heralds[m] = 0
+    return c
+
+
+def _val(v):
+    if isinstance(v, dict):
+        if "class" in v:
+            import lightworks as lw
+            return lw.Parameter(_val(v["_Parameter__value"]))
+        return v.get("float", v["frac"][0] / v["frac"][1] if "frac" in v else None)
+    return v
+
+
+def _state(c):
+    return (c.n_modes, repr(c._get_circuit_spec()), dict(c.heralds["input"]), dict(c.heralds["output"]), list(c._internal_modes))
+
+
+def replay_ps(inp):
+    from lightworks.sdk.circuit.components import Loss, PhaseShifter
+    c = _circ(inp)
+    if c is None:
+        return None
+    mode, phi, loss = _val(inp["mode"]), _val(inp["phi"]), _val(inp.get("loss", 0))
+    before = _state(c)
+    n_before = len(c._get_circuit_spec())
+    vis = [m for m in range(c.n_modes) if m not in c._internal_modes]
+    try:
+        c.ps(mode, phi, loss)
+        raised = None
+    except Exception as e:  # noqa: BLE001
+        raised = type(e).__name__
+    if raised:
+        if _state(c) != before:
+            return f"Circuit.ps({mode!r}, {phi!r}, {loss!r}) raised {raised} but changed the circuit"
+        return None
+    spec = c._get_circuit_spec()[n_before:]
+    lv = loss.get() if hasattr(loss, "get") else loss
+    if isinstance(mode, int) and not isinstance(mode, bool) and 0 <= mode < len(vis):
+        want = vis[mode]
+        if not spec or not isinstance(spec[0], PhaseShifter) or spec[0].mode != want:
+            return f"Circuit.ps({mode}) with ancillas {c._internal_modes}: recorded {spec}, expected a phase shifter on full mode {want}"
+        if (hasattr(loss, "get") or lv > 0) and (len(spec) != 2 or not isinstance(spec[1], Loss) or spec[1].mode != want):
+            return f"Circuit.ps({mode}, loss={lv}) with ancillas {c._internal_modes}: recorded {spec}, expected a loss element on full mode {want}"
+    return None
+
+
+def enum_ps():
+    for n in (1, 2, 3, 4):
+        import itertools
+        for k in range(0, n):
+            for internal in itertools.combinations(range(n), k):
+                for mode in range(-1, n + 1):
+                    for loss in (0, 0.3, 1.5):
+                        yield {"self": {"_Circuit__n_modes": n, "_Circuit__internal_modes": list(internal)}, "mode": mode, "phi": 0.5, "loss": loss}
+
+
+PS = Contract(
+    target=f"{CIRC}:Circuit.ps",
+    types={"self": CIRCUIT, "mode": MODE_T, "phi": "real", "loss": LOSS_T},
+    requires=[WF_INTERNAL, "mode >= 0"],
+    modifies=["self.__circuit_spec"],
+    ensures={
+        "phase_shifter_recorded": "isinstance(suffix(self.__circuit_spec)[0], PhaseShifter) and suffix(self.__circuit_spec)[0].mode == self._map_mode(old(mode)) "
+                                  "and suffix(self.__circuit_spec)[0].phi == phi",
+        "count": "len(suffix(self.__circuit_spec)) == (2 if (isinstance(loss, Parameter) or lossvalue(loss) > 0) else 1)",
+        "loss_on_same_mode": "implies(isinstance(loss, Parameter) or lossvalue(loss) > 0, isinstance(suffix(self.__circuit_spec)[1], Loss) and "
+                             "suffix(self.__circuit_spec)[1].mode == self._map_mode(old(mode)))",
+        "mode_valid": "0 <= suffix(self.__circuit_spec)[0].mode and suffix(self.__circuit_spec)[0].mode < self.__n_modes",
+    },
+    raises={"ModeRangeError": "not (self._map_mode(mode) < self.__n_modes)",
+            "TypeError": "self._map_mode(mode) < self.__n_modes and isinstance(loss, str)",
+            "ValueError": "self._map_mode(mode) < self.__n_modes and not isinstance(loss, str) and not (0 <= lossvalue(loss) and lossvalue(loss) <= 1)"},
+    defs=LOSSVAL,
+    inline=["loss"],       # should ps() be written in terms of self.loss() again, that call is executed from its real source
+    exc_frame=True,
+    replay=replay_ps,
+    props=["C01", "C08"],
+)
+PS.enum = enum_ps
+
+LOSS = Contract(
+    target=f"{CIRC}:Circuit.loss",
+    types={"self": CIRCUIT, "mode": MODE_T, "loss": LOSS_T},
+    requires=[WF_INTERNAL, "mode >= 0"],
+    modifies=["self.__circuit_spec"],
+    ensures={
+        "loss_recorded": "len(suffix(self.__circuit_spec)) == 1 and isinstance(suffix(self.__circuit_spec)[0], Loss) and "
+                         "suffix(self.__circuit_spec)[0].mode == self._map_mode(old(mode))",
+        "mode_valid": "0 <= suffix(self.__circuit_spec)[0].mode and suffix(self.__circuit_spec)[0].mode < self.__n_modes",
+    },
+    raises=PS.raises,
+    defs=LOSSVAL,
+    exc_frame=True,
+    props=["C01", "C08"],
+)
+
+WF_RANGE = "forall(t, implies(0 <= t and t < len(self.__internal_modes), 0 <= at(self.__internal_modes,t) and at(self.__internal_modes,t) < self.__n_modes))"
+PS.requires.append(WF_RANGE)
+LOSS.requires.append(WF_RANGE)
+
+
+def replay_herald(inp):
+    c = _circ(inp)
+    if c is None:
+        return None
+    npho, mi, mo = _val(inp["n_photons"]), _val(inp["input_mode"]), _val(inp.get("output_mode"))
+    before = _state(c)
+    hin, hout = dict(c.heralds["input"]), dict(c.heralds["output"])
+    vis = [m for m in range(c.n_modes) if m not in c._internal_modes]
+    try:
+        c.herald(npho, mi, mo)
+        raised = None
+    except Exception as e:  # noqa: BLE001
+        raised = type(e).__name__
+    if raised:
+        if _state(c) != before:
+            return f"Circuit.herald({npho!r}, {mi!r}, {mo!r}) raised {raised} but changed the circuit: {before} -> {_state(c)}"
+        return None
+    if isinstance(mi, int) and 0 <= mi < len(vis) and (mo is None or (isinstance(mo, int) and 0 <= mo < len(vis))):
+        fi, fo = vis[mi], vis[mi if mo is None else mo]
+        hin[fi] = npho
+        hout[fo] = npho
+        if dict(c.heralds["input"]) != hin or dict(c.heralds["output"]) != hout:
+            return f"Circuit.herald({npho}, {mi}, {mo}) with ancillas {c._internal_modes}: heralds {c.heralds}, expected input {hin} output {hout}"
+    return None
+
+
+def enum_herald():
+    import itertools
+    for n in (1, 2, 3, 4):
+        for k in range(0, n):
+            for internal in itertools.combinations(range(n), k):
+                for mi in range(0, n + 1):
+                    for mo in [None] + list(range(0, n + 1)):
+                        yield {"self": {"_Circuit__n_modes": n, "_Circuit__internal_modes": list(internal)}, "n_photons": 1, "input_mode": mi, "output_mode": mo}
+
+
+HERALD = Contract(
+    target=f"{CIRC}:Circuit.herald",
+    types={"self": CIRCUIT, "n_photons": ["int", "bool", "real"], "input_mode": "int", "output_mode": ["none", "int"]},
+    requires=[WF_INTERNAL, WF_RANGE, "input_mode >= 0", "implies(not is_none(output_mode), output_mode >= 0)"],
+    modifies=["self.__in_heralds", "self.__out_heralds", "self.__external_in_heralds", "self.__external_out_heralds"],
+    ensures={
+        "input_herald": "at(self.__in_heralds, self._map_mode(old(input_mode))) == n_photons and (self._map_mode(old(input_mode)) in self.__in_heralds) and "
+                        "at(self.__external_in_heralds, self._map_mode(old(input_mode))) == n_photons",
+        "output_herald": "at(self.__out_heralds, self._map_mode(out_mode(old(input_mode), old(output_mode)))) == n_photons and "
+                         "(self._map_mode(out_mode(old(input_mode), old(output_mode))) in self.__out_heralds) and "
+                         "at(self.__external_out_heralds, self._map_mode(out_mode(old(input_mode), old(output_mode)))) == n_photons",
+        "one_more_each": "len(self.__in_heralds) == old(len(self.__in_heralds)) + 1 and len(self.__out_heralds) == old(len(self.__out_heralds)) + 1",
+        "others_kept": "forall(x, implies((x in old(self.__in_heralds)), (x in self.__in_heralds) and at(self.__in_heralds, x) == at(old(self.__in_heralds), x))) and "
+                       "forall(x, implies((x in old(self.__out_heralds)), (x in self.__out_heralds) and at(self.__out_heralds, x) == at(old(self.__out_heralds), x)))",
+    },
+    raises={"TypeError": "not isinstance(n_photons, int) or isinstance(n_photons, bool)",
+            "ModeRangeError": "isinstance(n_photons, int) and not isinstance(n_photons, bool) and "
+                              "not (self._map_mode(input_mode) < self.__n_modes and self._map_mode(out_mode(input_mode, output_mode)) < self.__n_modes)",
+            "ValueError": "isinstance(n_photons, int) and not isinstance(n_photons, bool) and "
+                          "(self._map_mode(input_mode) < self.__n_modes and self._map_mode(out_mode(input_mode, output_mode)) < self.__n_modes) and "
+                          "((self._map_mode(input_mode) in self.__in_heralds) or (self._map_mode(out_mode(input_mode, output_mode)) in self.__out_heralds))"},
+    defs={"out_mode": lambda ex, i, o: (i if o is None else o)},
+    exc_frame=True,
+    replay=replay_herald,
+    props=["C08", "C02"],
+)
+HERALD.enum = enum_herald
+
+REFL_T = ["real", PARAM]
+BS = Contract(
+    target=f"{CIRC}:Circuit.bs",
+    types={"self": CIRCUIT, "mode_1": "int", "mode_2": ["none", "int"], "reflectivity": REFL_T, "loss": LOSS_T, "convention": ["'Rx'", "'H'", "'Q'"]},
+    requires=[WF_INTERNAL, WF_RANGE, "mode_1 >= 0", "implies(not is_none(mode_2), mode_2 >= 0)"],
+    modifies=["self.__circuit_spec"],
+    ensures={
+        "beam_splitter_recorded": "isinstance(suffix(self.__circuit_spec)[0], BeamSplitter) and suffix(self.__circuit_spec)[0].mode_1 == self._map_mode(old(mode_1)) "
+                                  "and suffix(self.__circuit_spec)[0].mode_2 == self._map_mode(second(old(mode_1), old(mode_2))) "
+                                  "and suffix(self.__circuit_spec)[0].convention == convention",
+        "distinct_valid_modes": "suffix(self.__circuit_spec)[0].mode_1 != suffix(self.__circuit_spec)[0].mode_2 and "
+                                "0 <= suffix(self.__circuit_spec)[0].mode_1 and suffix(self.__circuit_spec)[0].mode_1 < self.__n_modes and "
+                                "0 <= suffix(self.__circuit_spec)[0].mode_2 and suffix(self.__circuit_spec)[0].mode_2 < self.__n_modes",
+        "count": "len(suffix(self.__circuit_spec)) == (3 if (isinstance(loss, Parameter) or lossvalue(loss) > 0) else 1)",
+        "losses_on_same_modes": "implies(isinstance(loss, Parameter) or lossvalue(loss) > 0, "
+                                "isinstance(suffix(self.__circuit_spec)[1], Loss) and suffix(self.__circuit_spec)[1].mode == self._map_mode(old(mode_1)) and "
+                                "isinstance(suffix(self.__circuit_spec)[2], Loss) and suffix(self.__circuit_spec)[2].mode == self._map_mode(second(old(mode_1), old(mode_2))))",
+    },
+    raises={"ModeRangeError": "not (self._map_mode(mode_1) < self.__n_modes) or self._map_mode(mode_1) == self._map_mode(second(mode_1, mode_2)) or "
+                              "not (self._map_mode(second(mode_1, mode_2)) < self.__n_modes)",
+            "TypeError": "VALIDMODES and isinstance(loss, str)",
+            "ValueError": "VALIDMODES and not isinstance(loss, str) and (not (0 <= lossvalue(loss) and lossvalue(loss) <= 1) or "
+                          "not (0 <= lossvalue(reflectivity) and lossvalue(reflectivity) <= 1) or convention == 'Q')"},
+    defs={**LOSSVAL, "second": lambda ex, m1, m2: (m1 + 1 if m2 is None else m2)},
+    inline=["loss"],
+    exc_frame=True,
+    types_quick={"reflectivity": "real", "loss": ["real", PARAM], "convention": ["'H'", "'Q'"]},
+    props=["C01", "C08"],
+)
+_VALID = ("(self._map_mode(mode_1) < self.__n_modes and self._map_mode(mode_1) != self._map_mode(second(mode_1, mode_2)) and "
+          "self._map_mode(second(mode_1, mode_2)) < self.__n_modes)")
+BS.raises = {k: v.replace("VALIDMODES", _VALID) for k, v in BS.raises.items()}
+
+CONTRACTS += [PS, LOSS, HERALD, BS]
